@@ -653,6 +653,13 @@ impl<'de> Deserializer<'de> {
         V: Visitor<'de>,
     {
         self.unroll_type()?;
+        // `check_subtype` alone would also admit the bottom type `empty` as wire type
+        // (`empty <: service`), and then read a reference from bytes that were declared to
+        // hold no value at all (cf. `deserialize_principal`).
+        check!(
+            matches!(self.wire_type.as_ref(), TypeInner::Service(_)),
+            "service"
+        );
         self.check_subtype()?;
         let mut bytes = vec![4u8];
         let id = PrincipalBytes::read(&mut self.input)?;
@@ -665,6 +672,11 @@ impl<'de> Deserializer<'de> {
         V: Visitor<'de>,
     {
         self.unroll_type()?;
+        // see `deserialize_service`: wire type `empty` has no values
+        check!(
+            matches!(self.wire_type.as_ref(), TypeInner::Func(_)),
+            "func"
+        );
         self.check_subtype()?;
         if !self.read_bool_val()? {
             return Err(Error::msg("Opaque reference not supported"));
